@@ -82,6 +82,9 @@ type Runner struct {
 	box      *isaacstates.Ballotbox
 	hist     History
 	baseline int
+	started  bool
+	envMu    sync.Mutex             // the factory's caches are not concurrency-safe
+	prebuilt map[string]base.Ballot // concurrent part: ballots built before the threads start
 	lastPuts map[int]int
 	unsettled int
 }
@@ -338,7 +341,7 @@ func (r *Runner) perform(o Op) M {
 	pan := h.Catch(func() {
 		switch o.Op {
 		case "Vote":
-			bl := r.env.Ballot(o.B)
+			bl := r.ballot(o.B)
 			voted, err := r.box.Vote(bl)
 			res["voted"] = voted
 			res["err"] = errStr(err)
@@ -355,17 +358,22 @@ func (r *Runner) perform(o Op) M {
 			res["ret"] = r.box.SetLastPoint(lp)
 		case "Voted":
 			addrs := make([]base.Address, len(o.Nodes))
+
+			r.envMu.Lock()
 			for i, n := range o.Nodes {
 				addrs[i] = r.env.Outsider(n).Address()
 			}
+			r.envMu.Unlock()
 
 			sfs := r.box.Voted(base.NewStagePoint(realPoint(o.H, o.R), stageOf(o.S)), addrs)
 			ret := []M{}
 
+			r.envMu.Lock()
 			for _, sf := range sfs {
 				d := r.voteDesc(sf)
 				ret = append(ret, M{"n": d["n"], "f": d["f"], "ex": d["ex"], "sc": d["sc"], "h": d["h"], "r": d["r"], "s": d["s"]})
 			}
+			r.envMu.Unlock()
 
 			sort.Slice(ret, func(i, j int) bool { return ret[i]["n"].(string) < ret[j]["n"].(string) })
 			res["ret"] = ret
@@ -373,9 +381,11 @@ func (r *Runner) perform(o Op) M {
 			nodes, found, err := r.box.MissingNodes(base.NewStagePoint(realPoint(o.H, o.R), stageOf(o.S)))
 			names := []string{}
 
+			r.envMu.Lock()
 			for _, a := range nodes {
 				names = append(names, r.env.NodeName(a))
 			}
+			r.envMu.Unlock()
 
 			sort.Strings(names)
 			res["ret"] = names
@@ -390,6 +400,21 @@ func (r *Runner) perform(o Op) M {
 	}
 
 	return res
+}
+
+func ballotKey(b BallotSpec) string {
+	return fmt.Sprintf("%s|%d|%d|%d|%v|%s|%v|%s", b.Node, b.H, b.R, b.S, b.SC, b.F, sorted(b.Ex), b.EVP.Name)
+}
+
+func (r *Runner) ballot(b BallotSpec) base.Ballot {
+	if bl, ok := r.prebuilt[ballotKey(b)]; ok {
+		return bl
+	}
+
+	r.envMu.Lock()
+	defer r.envMu.Unlock()
+
+	return r.env.Ballot(b)
 }
 
 func defaults(o Op, res M) M {
@@ -422,6 +447,7 @@ func defaults(o Op, res M) M {
 // RunHistory executes one history on a fresh ballot box and logs it.
 func (r *Runner) RunHistory(hist History) {
 	r.hist = hist
+	r.prebuilt = nil
 	r.env = NewEnv(hist.N, hist.T10)
 	local := r.env.Locals[hist.Local]
 	th := r.env.Threshold
@@ -444,7 +470,8 @@ func (r *Runner) RunHistory(hist History) {
 	r.lastPuts = putCounts()
 
 	r.out.Emit(M{"a": "Reset", "nodes": r.env.Names, "local": hist.Local, "t10": hist.T10, "hold": hist.Hold,
-		"conc": len(hist.Threads) > 0, "tag": hist.Tag})
+		"conc": len(hist.Threads) > 0, "tag": hist.Tag, "newproc": !r.started})
+	r.started = true
 
 	for _, o := range hist.Ops {
 		res := defaults(o, r.perform(o))
@@ -462,6 +489,17 @@ func (r *Runner) RunHistory(hist History) {
 // (the log's own order); one observation is logged when everything has come to rest.
 func (r *Runner) runThreads(threads [][]Op) {
 	var wg sync.WaitGroup
+
+	// sign everything first: the threads only call the box
+	r.prebuilt = map[string]base.Ballot{}
+
+	for ti := range threads {
+		for _, o := range threads[ti] {
+			if o.Op == "Vote" {
+				r.prebuilt[ballotKey(o.B)] = r.env.Ballot(o.B)
+			}
+		}
+	}
 
 	start := make(chan struct{})
 
